@@ -3131,6 +3131,11 @@ def groupby_scan(
 
     if by_.ndim != 1 or axis_ != (array.ndim - 1,):
         raise NotImplementedError("Scans are only supported along the last axis, with 1D `by`.")
+    if by_.shape[-1] != array.shape[-1]:
+        raise ValueError(
+            "`array` and `by` must have the same length along the scanned axis. "
+            f"Received array of shape {array.shape} but `by` has shape {by_.shape}."
+        )
 
     if array.dtype.kind in "Mm":
         cast_to = array.dtype
